@@ -17,7 +17,7 @@ theorem auHeader_eq_ct (h : H) : auHeader h = auHdr_ct h.big (codecOf h.fmtWord)
 
 def peakChk (big : Bool) (ch : Nat) (ps : List Peak) : List Byte :=
   marker "PEAK" ++ u32 big (8 + 8 * ch) ++ u32 big 1 ++ u32 big 1000000000 ++
-    ps.flatMap fun p => u32 big (Float.f64to32 p.value) ++ u32 big p.position
+    ps.flatMap fun p => u32 big (wrF32 (Float.f64to32 p.value)) ++ u32 big p.position
 
 theorem peakChunk_eq_ct (h : H) (ps : List Peak) : peakChunk h ps = peakChk h.big h.ch ps := rfl
 
@@ -49,7 +49,7 @@ theorem wavHeader_eq_ct (h : H) :
 
 theorem peakChk_length (b : Bool) (ch : Nat) (ps : List Peak) : (peakChk b ch ps).length = 16 + 8 * ps.length := by
   unfold peakChk
-  have : ∀ l : List Peak, (l.flatMap fun p => u32 b (Float.f64to32 p.value) ++ u32 b p.position).length = 8 * l.length := by
+  have : ∀ l : List Peak, (l.flatMap fun p => u32 b (wrF32 (Float.f64to32 p.value)) ++ u32 b p.position).length = 8 * l.length := by
     intro l; induction l with
     | nil => rfl
     | cons p l ih => simp [List.flatMap_cons, u32_length_ct, ih]; omega
